@@ -47,6 +47,7 @@ MAP = [
  ("single-precision complex constant", ["C09"]),
  ("while a kind is still provisional", ["C14"]),
  ("non-finite numpy constant", ["C01"]),
+ ("independent statements depends on the hash seed", ["C15"]),
 ]
 def main():
     log = subprocess.run(["git", "-C", "/repo", "log", "--reverse", "--format=%h %s"],
